@@ -218,6 +218,18 @@ RetFacts(c, s) ==
 OwnVirtual(c) == \E i \in 1..NM(c) : Mbr(c, i).k \in {"vmeth", "vdtor"} \/ (Mbr(c, i).k = "sig" /\ Mbr(c, i).sig.role = "virt")
 RECURSIVE Poly(_)
 Poly(c) == OwnVirtual(c) \/ \E b \in 1..Len(Cls(c).bases) : Poly(Cls(c).bases[b].c)
+\* a destructor that overrides the virtual destructor of the only (public, non-virtual) base is not repeated: the
+\* class records the destructor function it inherits (define_method, F_inherited_destructor)
+DeclaresDtor(c) == \E i \in 1..NM(c) : Mbr(c, i).k \in {"dtor", "vdtor"}
+RECURSIVE VirtualDtor(_)
+VirtualDtor(c) == (\E i \in 1..NM(c) : Mbr(c, i).k = "vdtor") \/ \E b \in 1..Len(Cls(c).bases) : VirtualDtor(Cls(c).bases[b].c)
+InheritsDtor(c) ==
+  /\ DeclaresDtor(c) /\ Len(Cls(c).bases) = 1
+  /\ Rank(Cls(c).bases[1].acc) <= 1 /\ ~Cls(c).bases[1].virt
+  /\ VirtualDtor(Cls(c).bases[1].c)
+RECURSIVE DtorOwner(_)
+DtorOwner(c) == IF InheritsDtor(c) THEN DtorOwner(Cls(c).bases[1].c) ELSE c
+
 \* only public bases are recorded; a cast function is needed when the base sub-object may sit at another address
 NeedsCast(c, b) == LET B == Cls(c).bases[b] IN
   B.virt \/ b # 1 \/ Len(Cls(c).bases) # 1 \/ (Poly(c) /\ ~Poly(B.c))
